@@ -19,6 +19,8 @@ def nontrivial(evs):
     for e in evs:
         if e["ev"] == "lookup" and e["f"]:
             seen.setdefault(e["k"], set()).add(e["n"])
+        if e["ev"] == "lookups" and e["ks"] and e["fs"][0]:
+            seen.setdefault(e["ks"][0], set()).add(e["n"])
     return any(len(v) >= 2 for v in seen.values())
 
 
@@ -34,7 +36,9 @@ BASE = {
             "completed by looking up every key on the history-ful ring and on a ring built fresh from the final member set; "
             "TLC random walks; seeded random multi-node histories (2-4 rings converging to one member set in different orders, "
             "fresh rings in ascending and shuffled order) with table-driven hashes (range 2..1024, 1-4 replicas/probes) and with "
-            "the default XXH3 hash (up to 100 replicas); non-trivial = a key looked up on two rings after a removal",
+            "the default XXH3 hash (up to 100 replicas); large rings (40-120 members x 64-150 replicas = thousands of virtual nodes, "
+            "default hash) where 0-3 removals and 0-4 insertions in random order separate batches of 200-400 lookups, each batch "
+            "repeated on a ring built fresh (ascending or shuffled order) from the current member set; non-trivial = a key looked up on two rings after a removal",
     "assumptions": ["the hash function is deterministic (table-driven or the package's default XXH3)",
                     "a ring is used from one goroutine (documented as not safe for concurrent use)"],
     "exhaustive": False,
@@ -65,7 +69,11 @@ def legs(quick):
            dict(BASE, design=[],
                 gen={"module": "Gen_Ring", "cfg": "Gen_sim.cfg", "simulate": {"num": 80, "depth": 40},
                      "thorough_simulate": {"num": 4000, "depth": 40}},
-                n_random=(0, 0))]
+                n_random=(0, 0)),
+           # large rings with the default hash: thousands of virtual nodes, removals and several insertions between
+           # lookup batches, every batch repeated on a ring built fresh from the current member set
+           dict(BASE, design=[], gen=None, n_random=(0, 0),
+                driver={"cmd": "ring", "env": {"VERIF_RING_BIG": "4" if quick else "80"}})]
     return out
 
 
